@@ -738,6 +738,23 @@ func ruleBlock(c *Ctx) {
 	sort.Strings(names)
 	c.note("client methods that await a response: %s", strings.Join(names, ", "))
 	c.census("C-BLOCK", "awaiting client methods found in go.lsp.dev/protocol", len(aw), 3)
+	// role: the publication lock is the lock under which the per-document version counter is bumped
+	// (the same lock C-PUBLISH requires around the version check and the publication)
+	pubLocks := map[lockID]bool{}
+	for _, f := range ci.funcs {
+		for _, b := range f.Blocks {
+			for _, ins := range b.Instrs {
+				if mu, ok := ins.(*ssa.MapUpdate); ok {
+					mt, _ := mu.Map.Type().Underlying().(*types.Map)
+					if _, isBin := mu.Value.(*ssa.BinOp); isBin && mt != nil && perDocumentCounter(mt) {
+						for h := range ci.must[ins] {
+							pubLocks[h] = true
+						}
+					}
+				}
+			}
+		}
+	}
 	nClient := 0
 	for _, f := range ci.funcs {
 		for _, b := range f.Blocks {
@@ -766,7 +783,7 @@ func ruleBlock(c *Ctx) {
 					held := ci.may[ins]
 					bad := ""
 					for h := range held {
-						if !strings.Contains(strings.ToLower(string(h)), "publish") {
+						if !pubLocks[h] {
 							bad = string(h)
 						}
 					}
@@ -778,6 +795,13 @@ func ruleBlock(c *Ctx) {
 		}
 	}
 	c.census("C-BLOCK", "client calls in module code", nClient, 3)
+}
+
+// perDocumentCounter: map from a document URI to an integer.
+func perDocumentCounter(m *types.Map) bool {
+	ks := types.TypeString(m.Key(), nil)
+	b, ok := m.Elem().Underlying().(*types.Basic)
+	return ok && b.Info()&types.IsInteger != 0 && (strings.HasSuffix(ks, "DocumentURI") || strings.HasSuffix(ks, "uri.URI"))
 }
 
 // ---------- C-LOCKSET ----------
